@@ -66,3 +66,56 @@ func VerifC22GetActionsChecklist(
 	}
 	return ce.getActionsChecklist(windowIndex, seed)
 }
+
+// VerifC22SafeBlockShift exposes coordinationSafeBlockShift.
+const VerifC22SafeBlockShift = coordinationSafeBlockShift
+
+// VerifC22Executor wraps ONE coordinationExecutor instance, built with the production
+// constructor, so that the harness can call its methods repeatedly (production keeps one
+// executor per wallet and reuses it for every coordination window).
+type VerifC22Executor struct {
+	ce *coordinationExecutor
+}
+
+// VerifC22NewExecutor calls newCoordinationExecutor for a wallet with the given public key
+// and signing group operators; every other collaborator is left nil.
+func VerifC22NewExecutor(
+	c Chain,
+	walletPublicKey *ecdsa.PublicKey,
+	operators []chain.Address,
+) *VerifC22Executor {
+	return &VerifC22Executor{
+		ce: newCoordinationExecutor(
+			c,
+			wallet{
+				publicKey:             walletPublicKey,
+				signingGroupOperators: operators,
+			},
+			nil,
+			"",
+			nil,
+			nil,
+			nil,
+			nil,
+			nil,
+		),
+	}
+}
+
+// GetSeed calls getSeed on the wrapped executor.
+func (e *VerifC22Executor) GetSeed(coordinationBlock uint64) ([32]byte, error) {
+	return e.ce.getSeed(coordinationBlock)
+}
+
+// GetLeader calls getLeader on the wrapped executor.
+func (e *VerifC22Executor) GetLeader(seed [32]byte) chain.Address {
+	return e.ce.getLeader(seed)
+}
+
+// GetActionsChecklist calls getActionsChecklist on the wrapped executor.
+func (e *VerifC22Executor) GetActionsChecklist(
+	windowIndex uint64,
+	seed [32]byte,
+) []WalletActionType {
+	return e.ce.getActionsChecklist(windowIndex, seed)
+}
